@@ -13,6 +13,7 @@ import FastTicc.Model.MainLoop
 import FastTicc.Model.Numeric
 import FastTicc.Model.Heap
 import FastTicc.Model.Run
+import FastTicc.Model.Final
 
 open FastTicc FastTicc.Proto
 
@@ -155,6 +156,27 @@ def replayRun (T d K m limit : Nat) (half nwl : Rat) (betas : List Rat) (data : 
       pick := fun r => Repop.pickOfRecorded m (get r).picks }
   match Run.run inp orc limit init with
   | .ok o => s!"ok {o.rounds} " ++ showNatss (o.history.map (·.labels)) ++ " " ++ showRats (o.history.map (·.cost))
+  | .error e => s!"err {e}"
+
+/-- whole-result replay: the run of `replayRun` followed by the result assembly (`Final.report`).
+Output: `ok rounds labels cost all total mean median clusterMeans clusterMedians params bic ch fitted`. -/
+def replayFit (T d K m limit : Nat) (half nwl logT thr : Rat) (biased : Bool) (betas : List Rat)
+    (data : List (List Rat)) (init : List Nat) (rounds : List RoundOracle) : String :=
+  let inp : Run.Input Rat := ⟨T, d, K, m, matFn data, betas, half, nwl⟩
+  let get (r : Nat) : RoundOracle := rounds.getD r ⟨[], [], [], [], []⟩
+  let orc : Run.Oracles Rat :=
+    { theta := fun r k i j => (((get r).thetas.getD k []).getD i []).getD j 0
+      logDet := fun r k => (get r).logdets.getD k 0
+      spread := fun r k => (get r).spreads.getD k 0
+      order := fun r => (get r).order
+      pick := fun r => Repop.pickOfRecorded m (get r).picks }
+  match Run.run inp orc limit init with
+  | .ok o =>
+    let rep := Final.report inp orc logT thr biased o
+    " ".intercalate [s!"ok {rep.rounds}", showNats rep.labels, showRat rep.cost, showRats rep.agg.all,
+      showRat rep.agg.total, showRat rep.agg.mean, showRat rep.agg.median, showRats rep.agg.clusterMean,
+      showRats rep.agg.clusterMedian, toString rep.params, showRat rep.bic, showRat rep.ch,
+      showNats o.final.fitted]
   | .error e => s!"err {e}"
 
 def bad : String := "bad-op"
@@ -357,6 +379,13 @@ def step (line : String) : String :=
       let betas ← parseRats? betas; let data ← parseRatss? data; let init ← parseNats? init
       let rs ← (splitList rounds "@").mapM parseRound?
       pure (replayRun T d K m limit half nwl betas data init rs)
+  | ["replayfit", T, d, K, m, limit, half, nwl, logT, thr, biased, betas, data, init, rounds] => opt do
+      let T ← parseNat? T; let d ← parseNat? d; let K ← parseNat? K; let m ← parseNat? m; let limit ← parseNat? limit
+      let half ← parseRat? half; let nwl ← parseRat? nwl; let logT ← parseRat? logT; let thr ← parseRat? thr
+      let biased ← parseNat? biased
+      let betas ← parseRats? betas; let data ← parseRatss? data; let init ← parseNats? init
+      let rs ← (splitList rounds "@").mapM parseRound?
+      pure (replayFit T d K m limit half nwl logT thr (biased != 0) betas data init rs)
   -- ---------------------------------------------------------------- C08
   | ["repop", K, m, spreads, order, recorded, labels] => opt do
       let K ← parseNat? K; let m ← parseNat? m
